@@ -560,7 +560,7 @@ func runC07(a *Args) error {
 		var sig []byte
 		var serr error
 		var shash string
-		var targetTerm, vtargetTerm string
+		var targetTerm, vtargetTerm, letBlob string
 		before := time.Now()
 		var repo *mockRepo
 		var content, vcontent []byte
@@ -577,7 +577,14 @@ func runC07(a *Args) error {
 			content = blobBytes(c.Blob)
 			vcontent = blobBytes(c.VBlob)
 			targetTerm = CApp("TBlob", blobTerm(content), CStr(c.Blob.MT), CBool(mtOK(c.Blob.MT)))
-			vtargetTerm = CApp("TBlob", blobTerm(vcontent), CStr(c.VBlob.MT), CBool(mtOK(c.VBlob.MT)))
+			if bytes.Equal(content, vcontent) {
+				// the same blob at verification: share the term (string literals dominate Coq time)
+				letBlob = blobTerm(content)
+				targetTerm = CApp("TBlob", "b_", CStr(c.Blob.MT), CBool(mtOK(c.Blob.MT)))
+				vtargetTerm = CApp("TBlob", "b_", CStr(c.VBlob.MT), CBool(mtOK(c.VBlob.MT)))
+			} else {
+				vtargetTerm = CApp("TBlob", blobTerm(vcontent), CStr(c.VBlob.MT), CBool(mtOK(c.VBlob.MT)))
+			}
 			sig, _, serr = notation.SignBlob(ctx, blobSignerShim{sg, &shash}, bytes.NewReader(content),
 				notation.SignBlobOptions{SignerSignOptions: sopts, ContentMediaType: c.Blob.MT, UserMetadata: cpMeta(c.Meta)})
 			if serr != nil {
@@ -707,6 +714,9 @@ func runC07(a *Args) error {
 			CBool(c.Trusted), vtargetTerm, CMap(c.VMeta))
 		ob := CApp("mk_obs", CN(sc), optStr(shash, shash != ""), plugsig, plugenv, envTerm, CN(vcode), optStr(vhash, vhash != ""), retTerm, metaTerm)
 		term := CApp("mk_case", CN(my), in, ob)
+		if letBlob != "" {
+			term = "(let b_ := " + letBlob + " in " + term + ")"
+		}
 		cc := *c
 		cc.Obs = nil
 		kb, _ := json.Marshal(cc)
